@@ -133,6 +133,7 @@ type txStorage struct {
 	reg  *storage.StoreActionerRegistrar
 	w    *world
 	ntx  int    // committed + attempted Update transactions since the last reset
+	flt  int    // the flt-th Update transaction of the request fails without committing anything (0: none)
 	snap int    // copy the file after this many commits (<0: never)
 	to   string // snapshot target
 	done bool
@@ -144,9 +145,11 @@ func (s *txStorage) Store(namespace string) storage.Interface {
 func (s *txStorage) Register(name string, store storage.StoreActioner) { s.reg.Register(name, store) }
 
 func (s *txStorage) reset(snapAfter int, to string) {
-	s.ntx, s.snap, s.to, s.done = 0, snapAfter, to, false
+	s.ntx, s.snap, s.to, s.done, s.flt = 0, snapAfter, to, false, 0
 	s.maybeSnap()
 }
+
+var errInjected = errors.New("injected storage fault")
 func (s *txStorage) maybeSnap() {
 	if s.snap >= 0 && !s.done && s.ntx == s.snap {
 		s.done = true
@@ -162,6 +165,11 @@ type txStore struct {
 }
 
 func (t *txStore) Update(f func(storage.Tx) error) error {
+	if t.s.flt > 0 && t.s.ntx+1 == t.s.flt {
+		t.s.ntx++
+		t.s.maybeSnap()
+		return errInjected
+	}
 	err := t.Interface.Update(f)
 	t.s.ntx++
 	t.s.maybeSnap()
